@@ -309,7 +309,7 @@ class Cleanup:
 
     @staticmethod
     def suppress_first_comments(
-        source: str, sub: Callable = regex.compile(r"(?i)\A(#(?!\s*paroxython\s*:).*\n)*").sub
+        source: str, sub: Callable = regex.compile(r"(?i)\A(#(?!(?:.*#)?\s*paroxython\s*:).*\n)*").sub
     ) -> str:
         """Replace all comments placed on the first lines of the source code.
 
